@@ -372,7 +372,7 @@ def parse_contracts(path):
             if s == "prologue:":
                 mode = "prologue"
                 continue
-            m = re.match(r"ghost\s+(after\s+let(?:\s+\w+)?|wrap\s+selfcall|wrap\s+method\s+\w+|loop_pre|loop_tail|loop_post)\s*#(\d+)(?:\s+as\s+(\w+))?\s*:$", s)
+            m = re.match(r"ghost\s+(after\s+let(?:\s+\w+)?|wrap\s+selfcall|wrap\s+method\s+\w+|after\s+call\s+\w+|loop_pre|loop_tail|loop_post)\s*#(\d+)(?:\s+as\s+(\w+))?\s*:$", s)
             if m:
                 g = {"kind": " ".join(m.group(1).split()), "k": int(m.group(2)), "name": m.group(3) or "", "text": ""}
                 cur.ghosts.append(g)
@@ -809,6 +809,30 @@ def _annotate_body(em, fid, body, c, indent):
                     raise ExtractError(f"{fid}: ghost anchor {g['kind']}#{k} but the body has {len(mc)} such calls (lost anchor)")
                 ins_before.setdefault(mc[k][0], []).insert(0, ("raw", f"{A_OPEN}{{ let {g['name']} = {A_CLOSE}"))
                 ins_after.setdefault(mc[k][1], []).append(("wrapclose", (gi, g)))
+            elif g["kind"].startswith("after call "):
+                nm = g["kind"].split()[2]
+                hits = []
+                sgi = [i2 for i2, t2 in enumerate(body) if t2.kind not in L.TRIVIA]
+                for pp, i2 in enumerate(sgi):
+                    if body[i2].kind == "ident" and body[i2].text == nm and pp + 1 < len(sgi) and body[sgi[pp + 1]].kind == "punct" and body[sgi[pp + 1]].text == "(":
+                        cp = L.match_close(body, sgi[pp + 1])
+                        # end of the enclosing statement: first `;` not nested deeper than the call
+                        d = 0
+                        m = cp + 1
+                        while m < len(body):
+                            tt = body[m]
+                            if tt.kind == "punct" and tt.text in L.OPEN:
+                                d += 1
+                            elif tt.kind == "punct" and tt.text in L.CLOSE:
+                                d -= 1
+                            elif tt.kind == "punct" and tt.text == ";" and d <= 0:
+                                break
+                            m += 1
+                        if m < len(body):
+                            hits.append(m)
+                if k >= len(hits):
+                    raise ExtractError(f"{fid}: ghost anchor `call {nm}`#{k} but the body has {len(hits)} such statements (lost anchor)")
+                ins_after.setdefault(hits[k], []).append(("ghost", (gi, g)))
             elif g["kind"] == "loop_pre":
                 if k >= len(loops):
                     raise ExtractError(f"{fid}: ghost anchor loop#{k} but the body has {len(loops)} loops (lost anchor)")
